@@ -388,6 +388,8 @@ def run(R):
     R.trust('requires: the iteration values of data["it"] are distinct; the iterations passed to save_data are among them')
     from props import savevc
     savevc.save_obligations(R)          # unbounded: loop contracts on the real statements of save_data
+    from props import readvc
+    readvc.read_obligations(R)          # unbounded: invariant of the loop over the requested iterations of read_aurel_data
     scen = scenario_list(R.tier)
     scen.sort(key=lambda sc: -(sc['nd'] * 10 + sc['n_save'] * 3 + (5 if sc.get('two_saves') else 0)))
     R.bounded.append(dict(function='save_data / read_aurel_data / read_data',
